@@ -956,3 +956,103 @@ V("C08", "C08.R1", "c08-silent-rename-clone-var", "shroud/generate.py",
         self.append_function_index(new)
         ordered_functions.append(new)
         new._generated = "return_this"''', "silent")
+
+# ---------------------------------------------------------------------------
+# C10
+# ---------------------------------------------------------------------------
+V("C10", "C10.R1", "c10-strcopy-nm-unclamped-cxx", "shroud/whelpers.py",
+  '''     if (nsrc < 0) nsrc = std::strlen(src);
+     int nm = nsrc < ndest ? nsrc : ndest;''',
+  '''     if (nsrc < 0) nsrc = std::strlen(src);
+     int nm = nsrc;''', "fire", "ShroudStrCopy[c++]")
+V("C10", "C10.R1", "c10-strcopy-fill-too-long", "shroud/whelpers.py",
+  "     if(ndest > nm) memset(dest+nm,' ',ndest-nm); // blank fill\n   }\n}\"\"\",\n        cxx_include",
+  "     if(ndest > nm) memset(dest+nm,' ',ndest); // blank fill\n   }\n}\"\"\",\n        cxx_include", "fire", "ShroudStrCopy[c]")
+V("C10", "C10.R1", "c10-stralloc-malloc-short", "shroud/whelpers.py",
+  "   char *rv = malloc(nsrc + 1);", "   char *rv = malloc(nsrc);", "fire", "ShroudStrAlloc[c]")
+V("C10", "C10.R1", "c10-lentrim-off-by-one", "shroud/whelpers.py",
+  "    for (i = nsrc - 1; i >= 0; i--) {", "    for (i = nsrc; i >= 0; i--) {", "fire", "ShroudLenTrim")
+V("C10", "C10.R1", "c10-lentrim-return", "shroud/whelpers.py",
+  "    return i + 1;", "    return i + 2;", "fire", "ShroudLenTrim")
+V("C10", "C10.R1", "c10-arrayalloc-tgt-short", "shroud/whelpers.py",
+  "      char *tgt = malloc(ntrim+1);", "      char *tgt = malloc(ntrim);", "fire", "ShroudStrArrayAlloc[c]")
+V("C10", "C10.R1", "c10-copystring-no-clamp", "shroud/whelpers.py",
+  "if (data->elem_len < n) n = data->elem_len;\n", "", "fire", "LIB_ShroudCopyStringAndFree")
+V("C10", "C10.R1", "c10-copyarray-max", "shroud/whelpers.py",
+  "int n = c_var_size < data->size ? c_var_size : data->size;",
+  "int n = c_var_size > data->size ? c_var_size : data->size;", "fire", "LIB_ShroudCopyArray")
+V("C10", "C10.R1", "c10-blankfill-nul", "shroud/whelpers.py",
+  "   if(ndest > nm) memset(dest+nm,' ',ndest-nm);\n}\"\"\",\n        cxx_include",
+  "   if(ndest > nm) memset(dest+nm,'\\\\0',ndest-nm);\n}\"\"\",\n        cxx_include", "fire", "ShroudStrBlankFill")
+V("C10", "C10.R4", "c10-rename-nm-one-variant", "shroud/whelpers.py",
+  '''     if (nsrc < 0) nsrc = strlen(src);
+     int nm = nsrc < ndest ? nsrc : ndest;
+     memcpy(dest,src,nm);
+     if(ndest > nm) memset(dest+nm,' ',ndest-nm); // blank fill''',
+  '''     if (nsrc < 0) nsrc = strlen(src);
+     int ncopy = nsrc < ndest ? nsrc : ndest;
+     memcpy(dest,src,ncopy);
+     if(ndest > ncopy) memset(dest+ncopy,' ',ndest-ncopy); // blank fill''', "fire", "c-vs-cxx")
+V("C10", "C10.R2", "c10-trim-as-ndest", "shroud/statements.py",
+  '''        name="c_char_*_result_buf",
+        buf_args=["arg", "len"],
+        c_helper="ShroudStrCopy",
+        post_call=[
+            # nsrc=-1 will call strlen({cxx_var})
+            "ShroudStrCopy({c_var}, {c_var_len},"''',
+  '''        name="c_char_*_result_buf",
+        buf_args=["arg", "len"],
+        c_helper="ShroudStrCopy",
+        post_call=[
+            # nsrc=-1 will call strlen({cxx_var})
+            "ShroudStrCopy({c_var}, {c_var_trim},"''', "fire", "c_char_*_result_buf")
+V("C10", "C10.R2", "c10-string-in-uses-len", "shroud/statements.py",
+  '''        name="c_string_*/&_in_buf",
+        buf_args=["arg", "len_trim"],
+        cxx_local_var="scalar",
+        pre_call=[
+            "{c_const}std::string {cxx_var}({c_var}, {c_var_trim});",''',
+  '''        name="c_string_*/&_in_buf",
+        buf_args=["arg", "len_trim"],
+        cxx_local_var="scalar",
+        pre_call=[
+            "{c_const}std::string {cxx_var}({c_var}, {c_var_len});",''', "fire", "c_string_*_in_buf")
+V("C10", "C10.R2", "c10-buf-arg-missing", "shroud/statements.py",
+  '''        name="c_char_*_out_buf",
+        buf_args=["arg", "len"],''',
+  '''        name="c_char_*_out_buf",
+        buf_args=["arg"],''', "fire", "c_char_*_out_buf")
+V("C10", "C10.R2", "c10-stralloc-len-for-trim", "shroud/statements.py",
+  '"{c_var},\\t {c_var_trim},\\t {c_var_trim});",', '"{c_var},\\t {c_var_trim},\\t {c_var_len});",', "fire", "ShroudStrAlloc")
+V("C10", "C10.R3", "c10-lentrim-passes-len", "shroud/wrapf.py",
+  'append_format(arg_c_call, "len_trim({f_var}, kind=C_INT)", fmt)',
+  'append_format(arg_c_call, "len({f_var}, kind=C_INT)", fmt)', "fire", "build_arg_list_impl[len_trim]")
+V("C10", "C10.R3", "c10-templates-crossed", "shroud/statements.py",
+  '''        attrs["len_trim"] = options.C_var_trim_template.format(''',
+  '''        attrs["len_trim"] = options.C_var_len_template.format(''', "fire", "set_buf_variable_names[len_trim]")
+V("C10", "C10.R5", "c10-ftrim-no-nul", "shroud/wrapf.py",
+  'arg_c_call.append("trim({})//C_NULL_CHAR".format(f_arg.name))',
+  'arg_c_call.append("trim({})".format(f_arg.name))', "fire", "ftrim")
+V("C10", "C10.R5", "c10-ftrim-for-inout", "shroud/generate.py",
+  '''            options.F_CFI is False and
+            intent == "in" and''',
+  '''            options.F_CFI is False and''', "fire", "ftrim-guard")
+V("C10", "C10.R6", "c10-allocatable-wrong-len", "shroud/statements.py",
+  '''        name="f_char_scalar/*_result_buf_allocatable",
+        need_wrapper=True,
+        c_helper="copy_string",
+        f_helper="copy_string",
+        arg_decl=[
+            "character(len=:), allocatable :: {f_var}",
+        ],
+        post_call=[
+            "allocate(character(len={c_var_context}%elem_len):: {f_var})",''',
+  '''        name="f_char_scalar/*_result_buf_allocatable",
+        need_wrapper=True,
+        c_helper="copy_string",
+        f_helper="copy_string",
+        arg_decl=[
+            "character(len=:), allocatable :: {f_var}",
+        ],
+        post_call=[
+            "allocate(character(len={c_var_context}%size):: {f_var})",''', "fire", "allocate")
